@@ -33,6 +33,15 @@ pub struct TrkCtx {
     pub shards: usize,
     pub tokens: HashMap<(u32, u32), usize>,
     pub next_tok: usize,
+    /// per scene: canonical record stream (ids renamed by first appearance within the scene)
+    pub log: HashMap<u64, Vec<String>>,
+    pub rename: HashMap<u64, HashMap<u64, usize>>,
+}
+
+#[derive(Default)]
+pub struct TrkSlots {
+    pub slots: Vec<TrkCtx>,
+    pub cur: usize,
 }
 
 #[derive(Clone)]
@@ -75,6 +84,31 @@ fn echo_ok(input: &Universal2DBox, out: &Universal2DBox) -> bool {
         && input.height.to_bits() == out.height.to_bits()
         && input.confidence.to_bits() == out.confidence.to_bits()
         && ang(input.angle) == ang(out.angle)
+}
+
+fn log_records(c: &mut TrkCtx, scene: u64, recs: &[SortTrack]) {
+    let ren = c.rename.entry(scene).or_default();
+    let log = c.log.entry(scene).or_default();
+    let mut line = String::new();
+    for r in recs {
+        let n = ren.len();
+        let o = *ren.entry(r.id).or_insert(n);
+        let vt = match r.voting_type {
+            VotingType::Visual => 1,
+            VotingType::Positional => 0,
+        };
+        line.push_str(&format!(
+            "[{} e{} l{} c{} v{} {:08x} {:08x}]",
+            o,
+            r.epoch,
+            r.length,
+            opt_i(r.custom_object_id),
+            vt,
+            r.observed_bbox.xc.to_bits(),
+            r.observed_bbox.yc.to_bits()
+        ));
+    }
+    log.push(line);
 }
 
 fn show_records(c: &TrkCtx, dets: &[DetIn], recs: &[SortTrack]) -> String {
@@ -202,8 +236,35 @@ fn method(t: &mut Toks) -> PositionalMetricType {
 }
 
 pub fn exec(ctx: &mut Ctx, t: &mut Toks) -> String {
-    let c = &mut ctx.trk;
-    match t.next() {
+    let slots = &mut ctx.trk;
+    if slots.slots.is_empty() {
+        slots.slots.push(TrkCtx::default());
+    }
+    let first = t.next();
+    if first == "sel" {
+        let k = t.usize();
+        while slots.slots.len() <= k {
+            slots.slots.push(TrkCtx::default());
+        }
+        slots.cur = k;
+        return "OK".into();
+    }
+    if first == "cmp" {
+        let a = t.usize();
+        let b = t.usize();
+        let scene = t.u64();
+        let empty = Vec::new();
+        let la = slots.slots.get(a).and_then(|c| c.log.get(&scene)).unwrap_or(&empty);
+        let lb = slots.slots.get(b).and_then(|c| c.log.get(&scene)).unwrap_or(&empty);
+        if la == lb {
+            return format!("SAME {}", la.len());
+        }
+        let i = la.iter().zip(lb.iter()).position(|(x, y)| x != y).unwrap_or(la.len().min(lb.len()));
+        return format!("DIFF {} {} {}", i, la.get(i).cloned().unwrap_or("-".into()).replace(' ', "_"), lb.get(i).cloned().unwrap_or("-".into()).replace(' ', "_"));
+    }
+    let cur = slots.cur;
+    let c = &mut slots.slots[cur];
+    match first {
         "new" => {
             let kind = t.next();
             let shards = t.usize();
@@ -239,6 +300,7 @@ pub fn exec(ctx: &mut Ctx, t: &mut Toks) -> String {
                     out.push_str(&sort_table(s, *scene, dets));
                     let input: Vec<(Universal2DBox, Option<i64>)> = dets.iter().map(|d| (d.bbox.clone(), d.custom)).collect();
                     let recs = s.predict_with_scene(*scene, &input);
+                    log_records(c, *scene, &recs);
                     out.push_str(&format!(" S {} {}", scene, show_records(c, dets, &recs)));
                     out.push_str(&dump_sort_store(c, s));
                 }
@@ -260,6 +322,7 @@ pub fn exec(ctx: &mut Ctx, t: &mut Toks) -> String {
                     got.sort_by_key(|e| e.0);
                     for (scene, recs) in got {
                         let dets = &scenes.iter().find(|e| e.0 == scene).map(|e| e.1.clone()).unwrap_or_default();
+                        log_records(c, scene, &recs);
                         out.push_str(&format!(" S {} {}", scene, show_records(c, dets, &recs)));
                     }
                     out.push_str(&dump_sort_store(c, s));
